@@ -13,6 +13,15 @@ CLAIMED = {
     note='Trusted: clang-14 front end, ll2c translator (validated against the repository test-suite), CBMC, the abstract model in harness/C15_hist.c, '
          'vasprintf stub; allocation does not fail; values are non-NaN; operation kinds and resize shapes are enumerated, not symbolic.',
     design='DESIGN.md section 4 / C15'),
+ 'C04': dict(
+    technique='symbolic interpretation of the real vnaconv_*.c (clang-14 IR -> vf/irsym.py, exact rational functions over the reals) with z3 (QF_NRA) deciding the port relations of vnaconv(3); models replayed numerically on the gcc-compiled function',
+    text='Exact algebraic proof per function (no sampling): for all 72 two-port conversions and the 9 two-port input-impedance functions, with every matrix entry and reference '
+         'impedance a free complex symbol (re z0 = k^2 > 0), z3 shows that every state satisfying the input matrix relation satisfies the output matrix relation and vice versa, '
+         'and that an in-place call (out == in, zi overlaying the matrix) gives the same result; the n-port S/Z/Y and zin functions are decided for n = 1 (and n = 2, 3 in thorough, '
+         'every feasible LU pivot path, inclusion input => output).  Claims are over the real field: rounding, overflow and NaN are outside.',
+    note='Trusted: clang front end, vf/irsym.py (its handling of fadd/fsub/fmul/fdiv/__divdc3/sqrt-of-declared-square/cabs comparisons), z3, oracle/vnaconv_rel.py transcribed from vnaconv(3); '
+         'every divisor met is assumed non-zero (away from the singular set).',
+    design='DESIGN.md section 4 / C04', cmd='python3-vt ./check C04'),
  'C05': dict(
     technique='bounded symbolic model checking of the real vnadata_convert dispatch: clang-14 IR -> ll2c -> CBMC 6.11, recording stubs for the 90 vnaconv kernels, name-derived oracle',
     text='Bounded proof with CBMC over the real vnadata_convert: for all 11 x 13 (from, to) type codes, shapes 2x2 / 3x3 / 1x2, ordinary and per-frequency z0, in-place and '
@@ -62,12 +71,13 @@ m = {
  'hooks': {'guard': 'LIBVNA_VERIF', 'enable': 'none needed: static functions are reached by #include of the real .c file from the harness TU; stubs are supplied at link level',
            'baseline_off_cmd': 'make -C /repo check', 'source_commits': [], 'add_only': True},
  'engines': [
-    {'name': 'll2c+cbmc', 'path': 'vf/ll2c.py', 'serves_properties': [p for p in sorted(CLAIMED) if p not in ('C13',)], 'kind_free_text': 'clang-14 -O0 IR -> C translator feeding CBMC 6.11 (bounded symbolic execution, SAT)'},
+    {'name': 'll2c+cbmc', 'path': 'vf/ll2c.py', 'serves_properties': [p for p in sorted(CLAIMED) if p not in ('C13', 'C04')], 'kind_free_text': 'clang-14 -O0 IR -> C translator feeding CBMC 6.11 (bounded symbolic execution, SAT)'},
+    {'name': 'irsym+z3', 'path': 'vf/irsym.py', 'serves_properties': ['C04'], 'kind_free_text': 'LLVM-IR symbolic interpreter with exact rational-function doubles; z3 nonlinear real arithmetic decides the relation'},
     {'name': 'cbmc-native', 'path': 'vf/core.py', 'serves_properties': ['C13'], 'kind_free_text': 'CBMC 6.11 C front end directly on the real .c files (complex-free units)'},
  ],
  'checks': [
-    {'property_id': pid, 'quick_cmd': './check %s --tier quick' % pid, 'thorough_cmd': './check %s --tier thorough' % pid,
-     'evidence_file': 'evidence/%s.json' % pid, 'replay_cmd_template': './check --replay {path}', 'engine': 'll2c+cbmc' if pid not in ('C13',) else 'cbmc-native',
+    {'property_id': pid, 'quick_cmd': '%s --tier quick' % c.get('cmd', './check %s' % pid), 'thorough_cmd': '%s --tier thorough' % c.get('cmd', './check %s' % pid),
+     'evidence_file': 'evidence/%s.json' % pid, 'replay_cmd_template': './check --replay {path}', 'engine': 'irsym+z3' if pid in ('C04',) else ('ll2c+cbmc' if pid not in ('C13',) else 'cbmc-native'),
      'level_claimed': {'category': 'proof', 'text': c['text'], 'design_ref': c['design']}, 'level_note': c['note'], 'technique': c['technique']}
     for pid, c in sorted(CLAIMED.items())],
  'notes': 'All checks regenerate their encoding from /repo\'s working tree on every run. Exit 0 = held within the stated bounds; exit 1 + VIOLATION line = '
